@@ -832,7 +832,11 @@ def body_horoarc(case, ctx):
             m1, m2 = H.poincare_to_halfspace(p1), H.poincare_to_halfspace(p2)
             scale = hs_size(um, m1, m2)
             c0, r0 = C.horosphere_halfspace(um[:-1], m1)
-        condt = 2e-8 / float(np.sum((u - p1) ** 2))
+        # (an ideal centre is only known to sqrt(ulp) ~ 1e-8 in the disc; the circle through a
+        # reference point at Euclidean distance e from it moves by a few 1e-8 / e^2 - the
+        # thorough tier at seed 4 met 2.05e-8 / e^2 with the reference point 0.1 from the
+        # centre)
+        condt = 1e-7 / float(np.sum((u - p1) ** 2))
         tol = (1e-6 * (1 + r0) + condt) * scale
         ctx.small("horocycle radius vs closed form", r - r0, tol, unit=i, got=r, want=r0)
         ctx.small("horocycle centre vs closed form", c - c0, tol, unit=i, got=c, want=c0)
